@@ -159,7 +159,7 @@ package ast_java
 
 // the table key of a method: package.class.name:line (an anonymous entry takes the name of the enclosing method)
 //@ func getMethodMapName
-//@ ensures method.Name != "" ==> result == MKey(currentPkg, currentClz, method.Name, method.Position.StartLine)
+//@ ensures result == MKey(currentPkg, currentClz, (method.Name == "" && len(methodQueue) > 1) ? methodQueue[len(methodQueue) - 1].Name : method.Name, method.Position.StartLine)
 
 // outside an anonymous class, a method that starts being read becomes the current method, is queued once and entered
 // in the method table under its key; inside one it only goes to the creator table
